@@ -80,7 +80,7 @@ var instLayout = map[string]map[string][]layoutRow{
 	// SMEM: SBASE[5:0] SDATA[12:6] GLC[16] IMM[17] OP[25:18] OFFSET[51:32] (20 bits; 21 signed bits on gfx9, not distinguished here)
 	"decodeSMEM": {
 		"Base": {{"w0", 0, 5, ""}}, "Data": {{"w0", 6, 12, ""}}, "GlobalLevelCoherent": {{"w0", 16, 16, ""}}, "Imm": {{"w0", 17, 17, ""}},
-		"Offset": {{"w1", 0, 19, ""}, {"w1", 20, 20, " (Vega / CDNA3: sign bit of the 21-bit offset)"}, {"w1", 0, 20, " (Vega / CDNA3: the signed 21-bit offset)"}},
+		"Offset": {{"w1", 0, 19, ""}, {"w1", 0, 7, " (IMM=0: the SGPR that holds the offset)"}, {"w1", 20, 20, " (Vega / CDNA3: sign bit of the 21-bit offset)"}, {"w1", 0, 20, " (Vega / CDNA3: the signed 21-bit offset)"}},
 	},
 	// FLAT: (OFFSET[12:0] gfx9) GLC[16] SLC[17] OP[24:18] ADDR[39:32] DATA[47:40] (SADDR[54:48] gfx9) TFE[55] (gcn3) VDST[63:56]
 	"decodeFLAT": {
@@ -190,7 +190,10 @@ func collectFieldExtractions(c *core.Ctx, prov *core.Prov) []fieldExtraction {
 						case *ssa.Phi:
 							follow(t, d+1)
 						case *ssa.Extract:
-							follow(t, d+1)
+							// the error result of an operand constructor carries no field bits
+							if types.TypeString(t.Type(), nil) != "error" {
+								follow(t, d+1)
+							}
 						case *ssa.BinOp:
 							switch t.Op {
 							case token.EQL, token.NEQ, token.LSS, token.GTR, token.LEQ, token.GEQ:
